@@ -118,3 +118,4 @@ Fixpoint wops_tree (d : bool) (t : rtree) : list wop :=
 Fixpoint wops_forest (d : bool) (l : list rtree) : list wop := match l with [] => [] | c :: l' => wops_tree d c ++ wops_forest d l' end.
 
 Definition op_tag (op : wop) : option tag := match op with OpWrite t _ => Some t | _ => None end.
+
